@@ -353,3 +353,26 @@ def _dotstar(v, params):
         return False
     seq = _ast(v)
     return seq is not None and any(_star_then_dot(sg) for sg in _segments(seq))
+
+
+@classifier('ambig_realpath')
+def _ambig(v, params):
+    """AMBIG: REALPATH matching inspects only the first way the regex matched; when a path can be split between `**`
+    and explicit segments in several ways and the first one puts a directory symlink under `**`, globmatch rejects a
+    path that glob returns through another split."""
+    if v['kind'] != 'glob-vs-globmatch':
+        return False
+    obs = v['observed']
+    if obs.get('only_globmatch') or not obs.get('only_glob'):
+        return False
+    inp = v['input']
+    pats = inp['patterns'] if isinstance(inp['patterns'], list) else [inp['patterns']]
+    if not any('**' in p and '/' in p.replace('**', '', 1).strip('/') or p.count('**') > 1 for p in pats):
+        return False
+    from . import fsx
+    model = fsx.Model(fsx.from_desc(inp['tree']))
+    for p in obs['only_glob']:
+        comps = [c for c in p.split('/') if c]
+        if not any(model.islink('/'.join(comps[:i])) and model.isdir('/'.join(comps[:i])) for i in range(1, len(comps))):
+            return False
+    return True
